@@ -9,8 +9,10 @@ import (
 	"github.com/sirupsen/logrus"
 	appsv1 "k8s.io/api/apps/v1"
 	corev1 "k8s.io/api/core/v1"
+	apierrors "k8s.io/apimachinery/pkg/api/errors"
 	metav1 "k8s.io/apimachinery/pkg/apis/meta/v1"
 	"k8s.io/apimachinery/pkg/runtime"
+	"k8s.io/apimachinery/pkg/runtime/schema"
 	"k8s.io/apimachinery/pkg/types"
 	"k8s.io/client-go/kubernetes/fake"
 	k8stesting "k8s.io/client-go/testing"
@@ -278,12 +280,18 @@ func init() {
 		// deleted unless the scale change itself went through --------------------------------------------
 		for old := 1; old <= 4; old++ {
 			for nw := 0; nw < old; nw++ {
-				for _, failVerb := range []string{"update", "get"} {
+				for _, failVerb := range []string{"update", "get", "update-409"} {
 					idx++
 					if !c.Mine(idx) {
 						continue
 					}
-					cs := map[string]interface{}{"old": old, "new": nw, "failing_call": failVerb + " statefulsets"}
+					// update-409: the refusal is a genuine Conflict status (resource version changed), which a
+					// client may retry - if it then reports success the scale must really have changed
+					conflict409 := failVerb == "update-409"
+					if conflict409 {
+						failVerb = "update"
+					}
+					cs := map[string]interface{}{"old": old, "new": nw, "failing_call": failVerb + " statefulsets", "conflict_status": conflict409}
 					cli := fake.NewSimpleClientset()
 					sts := c18Sts("rep1", int32(old), 2, [3]int32{int32(old), int32(old), int32(old)})
 					cli.AppsV1().StatefulSets(c18NS).Create(context.TODO(), sts, metav1.CreateOptions{})
@@ -300,6 +308,9 @@ func init() {
 							return false, nil, nil
 						}
 						failed = true
+						if conflict409 {
+							return true, nil, apierrors.NewConflict(schema.GroupResource{Group: "apps", Resource: "statefulsets"}, "rep1", fmt.Errorf("the object has been modified"))
+						}
 						return true, nil, fmt.Errorf("scripted: conflict")
 					})
 					before := listClaims(cli)
@@ -310,8 +321,11 @@ func init() {
 					r.Nontrivial++
 					g, _ := cli.AppsV1().StatefulSets(c18NS).Get(context.TODO(), "rep1", metav1.GetOptions{})
 					after := listClaims(cli)
-					if err == nil {
+					if err == nil && !conflict409 {
 						viol("C18:api-error-swallowed", "scale", fmt.Sprintf("ChangeScale(%d) from %d returned no error although %s failed", nw, old, failVerb), cs)
+					}
+					if err == nil && conflict409 && int(*g.Spec.Replicas) != nw {
+						viol("C18:replicas:after-conflict", "replicas", fmt.Sprintf("ChangeScale(%d) from %d met one Conflict and reported success, but spec.replicas is %d", nw, old, *g.Spec.Replicas), cs)
 					}
 					if int(*g.Spec.Replicas) == old && len(after) != len(before) {
 						viol("C18:claims-deleted-although-scale-failed", "claims", fmt.Sprintf("the %s call failed, the set still has %d replicas, but claims went from %v to %v", failVerb, old, before, after), cs)
@@ -699,6 +713,51 @@ func init() {
 					}
 				}
 			}
+		}
+		// ---- (3b) ONE ReplicasManager asked repeatedly while a rolling update goes on: every status the set goes
+		// through during a rolling update of 3 shards (updated < replicas, all pods ready or one restarting), every
+		// sequence of up to 4 observations: the set is never handed out while updated != replicas ---------------
+		{
+			statuses := [][3]int32{{3, 0, 3}, {3, 0, 2}, {3, 1, 3}, {3, 1, 2}, {3, 2, 3}, {3, 2, 2}, {3, 3, 3}}
+			var seq []int
+			var walk func()
+			walk = func() {
+				if len(seq) > 0 {
+					idx++
+					if c.Mine(idx) {
+						cli := fake.NewSimpleClientset()
+						st := c18Sts("a", 3, 1, statuses[seq[0]])
+						cli.AppsV1().StatefulSets(c18NS).Create(context.TODO(), st, metav1.CreateOptions{})
+						rm := k8sshard.NewReplicasManager(cli, c18NS, "k8s-app=prometheus", 8080, false, c18Log())
+						for k, si := range seq {
+							g, _ := cli.AppsV1().StatefulSets(c18NS).Get(context.TODO(), "a", metav1.GetOptions{})
+							g.Status.Replicas, g.Status.UpdatedReplicas, g.Status.ReadyReplicas = statuses[si][0], statuses[si][1], statuses[si][2]
+							cli.AppsV1().StatefulSets(c18NS).UpdateStatus(context.TODO(), g, metav1.UpdateOptions{})
+							ms, err := rm.Replicas()
+							r.Transitions++
+							rolling := statuses[si][1] != statuses[si][0]
+							if err == nil && rolling && len(ms) > 0 {
+								var names []string
+								for _, x := range seq[:k+1] {
+									names = append(names, fmt.Sprint(statuses[x]))
+								}
+								viol("C18:rolling-update-coordinated:repeated-listing", "replicas-manager", fmt.Sprintf("one ReplicasManager, observed statuses (replicas, updated, ready) %v: at the last one the set was handed out although its rolling update is in progress", names), map[string]interface{}{"statuses": names})
+								break
+							}
+						}
+						r.States++
+					}
+				}
+				if len(seq) == 4 {
+					return
+				}
+				for i := range statuses {
+					seq = append(seq, i)
+					walk()
+					seq = seq[:len(seq)-1]
+				}
+			}
+			walk()
 		}
 		// ---- (4) sequences of ChangeScale with a controller re-creating claims (BFS) -------------
 		type st struct {
